@@ -173,6 +173,7 @@ func (x *Exec) havocFrame(st *State, fr []frameEntry, why string) {
 		cur := x.heapGet(st, n, g.sort)
 		if g.whole {
 			st.heaps[n] = x.vc.fresh(heapSym(n)+"_call", g.sort)
+			x.writeLog = append(x.writeLog, heapWrite{n, "*"})
 			continue
 		}
 		_, vs := g.sort.arrayParts()
@@ -225,7 +226,7 @@ func (x *Exec) applyContract(fc *FuncContract, callee *ssa.Function, args []Term
 				}
 			}()
 			t := x.evalClause(&post, c)
-			x.vc.assume(implies(pc, t), "postcondition of "+fc.Name)
+			x.vc.assumeTagged(implies(pc, t), "postcondition of "+fc.Name, c.Excl)
 		}()
 	}
 	return results
@@ -582,6 +583,7 @@ func (x *Exec) havocReachable(st *State, t types.Type, seen map[string]bool) {
 		hn, hs := x.sliceHeap(u.Elem())
 		x.heapInit(hn, hs)
 		st.heaps[hn] = x.vc.fresh(heapSym(hn)+"_dec", hs)
+		x.writeLog = append(x.writeLog, heapWrite{hn, "*"})
 		x.havocReachable(st, u.Elem(), seen)
 	case *types.Array:
 		x.havocReachable(st, u.Elem(), seen)
